@@ -58,79 +58,83 @@ signature is the signer's signature of them. -/
 def WF (sign : SignBytes → σ) (st : SignState σ) : Prop :=
   ∀ sb, st.sb = some sb → sb.hrs = st.hrs ∧ st.sig = some (sign sb)
 
-structure Inv (sign : SignBytes → σ) (s : State σ) : Prop where
-  wf_mem : WF sign s.mem
+/-- What holds of the file and the log at every instant, also inside a process
+that is being killed. -/
+structure Core (sign : SignBytes → σ) (s : State σ) : Prop where
   wf_disk : WF sign s.disk
-  ahead : s.mem = s.disk ∨ s.disk.hrs < s.mem.hrs
   persisted : Persisted s
   remembered : Remembered s
   mono : Monotone s.released
   noconf : NoConflict s.released
   valid : SigValid sign s.released
 
+/-- Between calls, the memory of the running process IS the file content
+(that is what the roll-back in `Update` re-establishes after a failed save). -/
+structure Inv (sign : SignBytes → σ) (s : State σ) : Prop extends Core sign s where
+  clean : s.mem = s.disk
+
 theorem inv_init (sign : SignBytes → σ) : Inv sign (State.init : State σ) where
-  wf_mem := by intro sb h; cases h
   wf_disk := by intro sb h; cases h
-  ahead := Or.inl rfl
   persisted := by intro e h; cases h
   remembered := by intro e h; cases h
   mono := List.Pairwise.nil
   noconf := by intro a h; cases h
   valid := by intro e h; cases h
+  clean := rfl
 
-theorem inv_restart {sign : SignBytes → σ} {s : State σ} (h : Inv sign s) : Inv sign (restart s) :=
-  { h with wf_mem := h.wf_disk, ahead := Or.inl rfl }
+theorem Core.restart {sign : SignBytes → σ} {s : State σ} (h : Core sign s) : Inv sign (restart s) :=
+  { wf_disk := h.wf_disk, persisted := h.persisted, remembered := h.remembered, mono := h.mono,
+    noconf := h.noconf, valid := h.valid, clean := rfl }
+
+theorem Inv.wf_mem {sign : SignBytes → σ} {s : State σ} (h : Inv sign s) : WF sign s.mem := by
+  rw [h.clean]; exact h.wf_disk
 
 theorem disk_lt_of_fresh {sign : SignBytes → σ} {s : State σ} (h : Inv sign s) {q : HRS}
     (hf : checkHRS s.mem q = .fresh) : s.disk.hrs < q := by
-  have h1 := checkHRS_fresh hf
-  rcases h.ahead with e | lt
-  · rw [← e]; exact h1
-  · exact HRS.lt_trans lt h1
+  rw [← h.clean]; exact checkHRS_fresh hf
 
-/-- memory runs ahead (failed save, or killed before the rename): nothing else changes. -/
-theorem inv_mem_ahead {sign : SignBytes → σ} {s : State σ} (h : Inv sign s) (sb : SignBytes)
-    (hlt : s.disk.hrs < sb.hrs) :
-    Inv sign { s with mem := ⟨sb.hrs, some sb, some (sign sb)⟩ } :=
-  { h with
-    wf_mem := by intro sb' e; cases e; exact ⟨rfl, rfl⟩
-    ahead := Or.inr hlt }
+/-- killed before the rename: only the dying process's memory differs. -/
+theorem core_mem_only {sign : SignBytes → σ} {s : State σ} (h : Core sign s) (m : SignState σ) :
+    Core sign { s with mem := m } :=
+  { wf_disk := h.wf_disk, persisted := h.persisted, remembered := h.remembered, mono := h.mono,
+    noconf := h.noconf, valid := h.valid }
+
+theorem wf_fresh (sign : SignBytes → σ) (sb : SignBytes) :
+    WF sign (⟨sb.hrs, some sb, some (sign sb)⟩ : SignState σ) := by
+  intro sb' e; cases e; exact ⟨rfl, rfl⟩
 
 /-- the new state reaches the file (rename done) but the process dies before the signature leaves it. -/
-theorem inv_persist_silent {sign : SignBytes → σ} {s : State σ} (h : Inv sign s) (sb : SignBytes)
+theorem core_persist_silent {sign : SignBytes → σ} {s : State σ} (h : Core sign s) (sb : SignBytes)
     (hlt : s.disk.hrs < sb.hrs) :
-    Inv sign { s with mem := ⟨sb.hrs, some sb, some (sign sb)⟩, disk := ⟨sb.hrs, some sb, some (sign sb)⟩ } := by
+    Core sign { s with mem := ⟨sb.hrs, some sb, some (sign sb)⟩, disk := ⟨sb.hrs, some sb, some (sign sb)⟩ } := by
   have old_lt : ∀ e ∈ s.released, e.hrs < sb.hrs := fun e he => HRS.lt_of_le_of_lt (h.persisted e he) hlt
-  have wf : WF sign (⟨sb.hrs, some sb, some (sign sb)⟩ : SignState σ) := by
-    intro sb' e; cases e; exact ⟨rfl, rfl⟩
   exact {
-      wf_mem := wf, wf_disk := wf, ahead := Or.inl rfl
+      wf_disk := wf_fresh sign sb
       persisted := fun e he => HRS.le_of_lt (old_lt e he)
       remembered := fun e he eq => absurd eq (HRS.ne_of_lt (old_lt e he))
       mono := h.mono, noconf := h.noconf, valid := h.valid }
 
 /-- the new state reaches the file and then the signature is handed out. -/
-theorem inv_persist_release {sign : SignBytes → σ} {s : State σ} (h : Inv sign s) (sb : SignBytes)
+theorem core_persist_release {sign : SignBytes → σ} {s : State σ} (h : Core sign s) (sb : SignBytes)
     (hlt : s.disk.hrs < sb.hrs) :
-    Inv sign { s with mem := ⟨sb.hrs, some sb, some (sign sb)⟩, disk := ⟨sb.hrs, some sb, some (sign sb)⟩,
-                      released := s.released ++ [⟨sb.hrs, sb.body, sb.ts, sign sb⟩] } := by
+    Core sign (({ s with mem := ⟨sb.hrs, some sb, some (sign sb)⟩, disk := ⟨sb.hrs, some sb, some (sign sb)⟩ } : State σ).release
+                ⟨sb.hrs, sb.body, sb.ts, sign sb⟩) := by
   have old_lt : ∀ e ∈ s.released, e.hrs < sb.hrs := fun e he => HRS.lt_of_le_of_lt (h.persisted e he) hlt
-  have wf : WF sign (⟨sb.hrs, some sb, some (sign sb)⟩ : SignState σ) := by
-    intro sb' e; cases e; exact ⟨rfl, rfl⟩
   refine {
-      wf_mem := wf, wf_disk := wf, ahead := Or.inl rfl
+      wf_disk := wf_fresh sign sb
       persisted := ?_, remembered := ?_, mono := ?_, noconf := ?_, valid := ?_ }
   · intro e he
-    simp only [List.mem_append, List.mem_singleton] at he
+    simp only [State.release, List.mem_append, List.mem_singleton] at he
     rcases he with he | rfl
     · exact HRS.le_of_lt (old_lt e he)
     · exact HRS.le_refl _
   · intro e he eq
-    simp only [List.mem_append, List.mem_singleton] at he
+    simp only [State.release, List.mem_append, List.mem_singleton] at he
     rcases he with he | rfl
     · exact absurd eq (HRS.ne_of_lt (old_lt e he))
     · exact ⟨rfl, rfl⟩
   · unfold Monotone
+    simp only [State.release]
     rw [List.pairwise_append]
     refine ⟨h.mono, List.pairwise_singleton _ _, ?_⟩
     intro a ha b hb
@@ -138,42 +142,42 @@ theorem inv_persist_release {sign : SignBytes → σ} {s : State σ} (h : Inv si
     subst hb
     exact HRS.le_of_lt (old_lt a ha)
   · intro a ha b hb eq
-    simp only [List.mem_append, List.mem_singleton] at ha hb
+    simp only [State.release, List.mem_append, List.mem_singleton] at ha hb
     rcases ha with ha | rfl <;> rcases hb with hb | rfl
     · exact h.noconf a ha b hb eq
     · exact absurd eq (HRS.ne_of_lt (old_lt a ha))
     · exact absurd eq.symm (HRS.ne_of_lt (old_lt b hb))
     · exact ⟨rfl, rfl, rfl⟩
   · intro e he
-    simp only [List.mem_append, List.mem_singleton] at he
+    simp only [State.release, List.mem_append, List.mem_singleton] at he
     rcases he with he | rfl
     · exact h.valid e he
     · rfl
 
-/-- the same-HRS branch from a memory state equal to the file: the stored
-message is released again, unchanged. -/
-theorem inv_reuse {sign : SignBytes → σ} {s : State σ} (h : Inv sign s) (clean : s.mem = s.disk)
+/-- the same-HRS branch: the stored message is released again, unchanged. -/
+theorem core_reuse {sign : SignBytes → σ} {s : State σ} (h : Inv sign s)
     {last : SignBytes} {sg : σ} (hsb : s.mem.sb = some last) (hsg : s.mem.sig = some sg) :
-    Inv sign { s with released := s.released ++ [⟨s.mem.hrs, last.body, last.ts, sg⟩] } := by
+    Core sign (s.release ⟨s.mem.hrs, last.body, last.ts, sg⟩) := by
+  have clean := h.clean
   have hw := h.wf_mem last hsb
   have hlast : last = ⟨s.mem.hrs, last.body, last.ts⟩ := by
     cases last; simp only at hw ⊢; rw [hw.1]
   have hsg' : sg = sign last := by
     have := hw.2; rw [hsg] at this; exact Option.some.inj this
-  refine { wf_mem := h.wf_mem, wf_disk := h.wf_disk, ahead := h.ahead
-           persisted := ?_, remembered := ?_, mono := ?_, noconf := ?_, valid := ?_ }
+  refine { wf_disk := h.wf_disk, persisted := ?_, remembered := ?_, mono := ?_, noconf := ?_, valid := ?_ }
   · intro e he
-    simp only [List.mem_append, List.mem_singleton] at he
+    simp only [State.release, List.mem_append, List.mem_singleton] at he
     rcases he with he | rfl
     · exact h.persisted e he
-    · exact HRS.le_of_eq (by rw [clean])
+    · exact HRS.le_of_eq (by rw [clean]; rfl)
   · intro e he eq
-    simp only [List.mem_append, List.mem_singleton] at he
+    simp only [State.release, List.mem_append, List.mem_singleton] at he
     rcases he with he | rfl
     · exact h.remembered e he eq
     · show s.disk.sb = some _ ∧ s.disk.sig = some _
       rw [← clean, hsb, hsg, ← hlast]; exact ⟨rfl, rfl⟩
   · unfold Monotone
+    simp only [State.release]
     rw [List.pairwise_append]
     refine ⟨h.mono, List.pairwise_singleton _ _, ?_⟩
     intro a ha b hb
@@ -189,7 +193,7 @@ theorem inv_reuse {sign : SignBytes → σ} {s : State σ} (h : Inv sign s) (cle
       have e2 := Option.some.inj this.2
       rw [e1]; exact ⟨rfl, rfl, e2.symm⟩
     intro a ha b hb eq
-    simp only [List.mem_append, List.mem_singleton] at ha hb
+    simp only [State.release, List.mem_append, List.mem_singleton] at ha hb
     rcases ha with ha | rfl <;> rcases hb with hb | rfl
     · exact h.noconf a ha b hb eq
     · exact key a ha eq
@@ -197,85 +201,13 @@ theorem inv_reuse {sign : SignBytes → σ} {s : State σ} (h : Inv sign s) (cle
       exact ⟨this.1.symm, this.2.1.symm, this.2.2.symm⟩
     · exact ⟨rfl, rfl, rfl⟩
   · intro e he
-    simp only [List.mem_append, List.mem_singleton] at he
+    simp only [State.release, List.mem_append, List.mem_singleton] at he
     rcases he with he | rfl
     · exact h.valid e he
     · show sg = sign ⟨s.mem.hrs, last.body, last.ts⟩
       rw [← hlast]; exact hsg'
 
-/-! ### Every step preserves the invariant (under the guard) -/
-
-theorem inv_reuse_branch {sign : SignBytes → σ} {s : State σ} (h : Inv sign s) (clean : s.mem = s.disk)
-    (sb : SignBytes) (hq : sb.hrs = s.mem.hrs) : Inv sign (reuse s sb).1 := by
-  unfold reuse
-  split
-  · rename_i last sg hsb hsg
-    have hw := h.wf_mem last hsb
-    split
-    · rename_i heq
-      have := inv_reuse h clean hsb hsg
-      subst heq
-      rw [← hq] at this
-      exact this
-    · split
-      · rename_i hne hts
-        have := inv_reuse h clean hsb hsg
-        unfold onlyDifferByTimestamp at hts
-        have e := of_decide_eq_true hts
-        have eb : last.body = sb.body := (SignBytes.mk.inj e).2.1
-        rw [← hq, eb] at this
-        exact this
-      · exact h
-  · exact h
-
-theorem inv_fresh_branch {sign : SignBytes → σ} {s : State σ} (h : Inv sign s) (p : Persist)
-    (sb : SignBytes) (hlt : s.disk.hrs < sb.hrs) : Inv sign (freshSign sign p s sb).1 := by
-  unfold freshSign
-  simp only []
-  split
-  · exact inv_mem_ahead h sb hlt
-  · split
-    · split
-      · exact inv_mem_ahead h sb hlt
-      · exact inv_persist_release h sb hlt
-    · exact inv_mem_ahead h sb hlt
-    · exact inv_persist_silent h sb hlt
-
-theorem inv_signReq {sign : SignBytes → σ} {s : State σ} (h : Inv sign s) (p : Persist) (q : Req)
-    (g : CleanReuse s q) : Inv sign (signReq sign p s q).1 := by
-  unfold signReq
-  split
-  · exact h
-  · rename_i st hst
-    split
-    · exact h
-    · exact h
-    · rename_i hc
-      exact inv_reuse_branch h (g st hst hc) _ (checkHRS_same hc).1
-    · rename_i hc
-      exact inv_fresh_branch h p _ (disk_lt_of_fresh h hc)
-
-theorem inv_step {sign : SignBytes → σ} {s : State σ} (h : Inv sign s) (op : Op)
-    (g : ∀ q, servedReq s op = some q → CleanReuse s q) : Inv sign (step sign s op).1 := by
-  cases op with
-  | sign q => exact inv_signReq h _ q (g q rfl)
-  | crash => exact inv_restart h
-  | failsave on => exact { h with }
-  | cut c q =>
-    simp only [step]
-    split
-    · exact h
-    · exact inv_restart (inv_signReq (inv_restart h) _ q (fun _ _ _ => rfl))
-
-theorem inv_run {sign : SignBytes → σ} (ops : List Op) : ∀ {s : State σ}, Inv sign s →
-    NoDirtyReuse sign s ops → Inv sign (run sign s ops) := by
-  induction ops with
-  | nil => intro s h _; exact h
-  | cons op ops ih =>
-    intro s h g
-    exact ih (inv_step h op g.1) g.2
-
-/-! ### Operational conditions that imply the guard -/
+/-! ### Every step preserves the invariant -/
 
 theorem reuse_mem_disk (s : State σ) (sb : SignBytes) :
     (reuse s sb).1.mem = s.mem ∧ (reuse s sb).1.disk = s.disk ∧ (reuse s sb).1.failing = s.failing ∧
@@ -287,222 +219,146 @@ theorem reuse_mem_disk (s : State σ) (sb : SignBytes) :
     · split <;> exact ⟨rfl, rfl, rfl, rfl⟩
   · exact ⟨rfl, rfl, rfl, rfl⟩
 
-theorem freshSign_normal_clean (sign : SignBytes → σ) (s : State σ) (sb : SignBytes)
-    (hf : (freshSign sign .normal s sb).2.saveFailed = false) :
-    (freshSign sign .normal s sb).1.mem = (freshSign sign .normal s sb).1.disk := by
-  unfold freshSign at hf ⊢
-  simp only [] at hf ⊢
-  split at hf
-  · cases hf
-  · rename_i hv
-    simp only [hv]
-    split at hf
-    · cases hf
-    · rename_i hfl
-      simp only [hfl]
-      rfl
-
-theorem signReq_normal_clean (sign : SignBytes → σ) (s : State σ) (q : Req) (hc : s.mem = s.disk)
-    (hf : (signReq sign .normal s q).2.saveFailed = false) :
-    (signReq sign .normal s q).1.mem = (signReq sign .normal s q).1.disk := by
-  cases hq : q.step with
-  | none => simp only [signReq, hq]; exact hc
-  | some st =>
-    cases hk : checkHRS s.mem ⟨q.h, q.r, st⟩ with
-    | err e => simp only [signReq, hq, hk]; exact hc
-    | panicNoSig => simp only [signReq, hq, hk]; exact hc
-    | same =>
-      simp only [signReq, hq, hk]
-      rw [(reuse_mem_disk s _).1, (reuse_mem_disk s _).2.1]; exact hc
-    | fresh =>
-      simp only [signReq, hq, hk] at hf ⊢
-      exact freshSign_normal_clean sign s _ hf
-
-theorem step_clean (sign : SignBytes → σ) (s : State σ) (op : Op) (hc : s.mem = s.disk)
-    (hf : (step sign s op).2.saveFailed = false) : (step sign s op).1.mem = (step sign s op).1.disk := by
-  cases op with
-  | sign q => exact signReq_normal_clean sign s q hc hf
-  | crash => rfl
-  | failsave on => exact hc
-  | cut c q =>
-    simp only [step]
+theorem core_reuse_branch {sign : SignBytes → σ} {s : State σ} (h : Inv sign s)
+    (sb : SignBytes) (hq : sb.hrs = s.mem.hrs) : Core sign (reuse s sb).1 := by
+  unfold reuse
+  split
+  · rename_i last sg hsb hsg
     split
+    · rename_i heq
+      have := core_reuse h hsb hsg
+      subst heq
+      rw [← hq] at this
+      exact this
+    · split
+      · rename_i hne hts
+        have := core_reuse h hsb hsg
+        unfold onlyDifferByTimestamp at hts
+        have e := of_decide_eq_true hts
+        have eb : last.body = sb.body := (SignBytes.mk.inj e).2.1
+        rw [← hq, eb] at this
+        exact this
+      · exact h.toCore
+  · exact h.toCore
+
+theorem core_fresh_branch {sign : SignBytes → σ} {s : State σ} (h : Inv sign s) (p : Persist)
+    (sb : SignBytes) (hlt : s.disk.hrs < sb.hrs) : Core sign (freshSign sign p s sb).1 := by
+  unfold freshSign
+  simp only []
+  split
+  · exact h.toCore
+  · split
+    · split
+      · exact h.toCore
+      · exact core_persist_release h.toCore sb hlt
+    · exact core_mem_only h.toCore _
+    · exact core_persist_silent h.toCore sb hlt
+
+theorem core_signReq {sign : SignBytes → σ} {s : State σ} (h : Inv sign s) (p : Persist) (q : Req) :
+    Core sign (signReq sign p s q).1 := by
+  unfold signReq signReqWith
+  split
+  · exact h.toCore
+  · split
+    · exact h.toCore
+    · exact h.toCore
+    · rename_i hc
+      exact core_reuse_branch h _ (checkHRS_same hc).1
+    · rename_i hc
+      exact core_fresh_branch h p _ (disk_lt_of_fresh h hc)
+
+/-- A completed call (not killed) leaves memory equal to the file: success
+persists, failure rolls back, everything else touches neither. -/
+theorem freshSign_normal_clean (sign : SignBytes → σ) (s : State σ) (sb : SignBytes) (hc : s.mem = s.disk) :
+    (freshSign sign .normal s sb).1.mem = (freshSign sign .normal s sb).1.disk := by
+  unfold freshSign
+  simp only []
+  split
+  · exact hc
+  · split
     · exact hc
     · rfl
 
-theorem restartsFirst_cons {op : Op} {ops : List Op} (h : restartsFirst (op :: ops) = true) : op = .crash := by
-  cases op <;> first | rfl | cases h
+theorem signReq_normal_clean (sign : SignBytes → σ) (s : State σ) (q : Req) (hc : s.mem = s.disk) :
+    (signReq sign .normal s q).1.mem = (signReq sign .normal s q).1.disk := by
+  cases hq : q.step with
+  | none => simp only [signReq, signReqWith, hq]; exact hc
+  | some st =>
+    cases hk : checkHRS s.mem ⟨q.h, q.r, st⟩ with
+    | err e => simp only [signReq, signReqWith, hq, hk]; exact hc
+    | panicNoSig => simp only [signReq, signReqWith, hq, hk]; exact hc
+    | same =>
+      simp only [signReq, signReqWith, hq, hk]
+      rw [(reuse_mem_disk s _).1, (reuse_mem_disk s _).2.1]; exact hc
+    | fresh =>
+      simp only [signReq, signReqWith, hq, hk]
+      exact freshSign_normal_clean sign s _ hc
 
-theorem noDirtyReuse_of_failStop' (sign : SignBytes → σ) (ops : List Op) : ∀ (s : State σ),
-    (s.mem = s.disk ∨ restartsFirst ops = true) → FailStop sign s ops → NoDirtyReuse sign s ops := by
-  induction ops with
-  | nil => intro s _ _; trivial
-  | cons op ops ih =>
-    intro s hs hfs
-    refine ⟨?_, ih _ ?_ hfs.2⟩
-    · intro q hq st _ _
-      rcases hs with hc | hr
-      · exact hc
-      · cases restartsFirst_cons hr; cases hq
-    · rcases hs with hc | hr
-      · cases hsf : (step sign s op).2.saveFailed
-        · exact Or.inl (step_clean sign s op hc hsf)
-        · exact Or.inr (hfs.1 hsf)
-      · cases restartsFirst_cons hr; exact Or.inl rfl
-
-theorem noDirtyReuse_of_failStop (sign : SignBytes → σ) (ops : List Op) (s : State σ)
-    (hc : s.mem = s.disk) (h : FailStop sign s ops) : NoDirtyReuse sign s ops :=
-  noDirtyReuse_of_failStop' sign ops s (Or.inl hc) h
-
-theorem noDirtyReuse_prefix (sign : SignBytes → σ) (pre post : List Op) : ∀ (s : State σ),
-    NoDirtyReuse sign s (pre ++ post) → NoDirtyReuse sign s pre := by
-  induction pre with
-  | nil => intro s _; trivial
-  | cons op pre ih => intro s h; exact ⟨h.1, ih _ h.2⟩
-
-theorem validate_wf (sign : SignBytes → σ) (q : Req) (st : Nat) (hq : q.wf = true) (hst : q.step = some st) :
-    validate (⟨⟨q.h, q.r, st⟩, some ⟨⟨q.h, q.r, st⟩, q.body, q.ts⟩, some (sign ⟨⟨q.h, q.r, st⟩, q.body, q.ts⟩)⟩ : SignState σ) = true := by
-  unfold Req.wf at hq
-  rw [hst] at hq
-  simp only [Bool.and_eq_true, decide_eq_true_eq] at hq
-  unfold validate
-  simp only [Bool.and_eq_true, decide_eq_true_eq]
-  exact ⟨⟨⟨hq.1.1, hq.1.2⟩, hq.2.2⟩, trivial, hq.2.1⟩
-
-theorem signReq_benign (sign : SignBytes → σ) (s : State σ) (p : Persist) (q : Req) (hq : q.wf = true)
-    (hfl : s.failing = false) : (signReq sign p s q).2.saveFailed = false ∧ (signReq sign p s q).1.failing = false := by
-  unfold signReq
-  split
-  · exact ⟨rfl, hfl⟩
-  · rename_i st hst
-    split
-    · exact ⟨rfl, hfl⟩
-    · exact ⟨rfl, hfl⟩
-    · exact ⟨(reuse_mem_disk s _).2.2.2, by rw [(reuse_mem_disk s _).2.2.1]; exact hfl⟩
-    · unfold freshSign
-      simp only [validate_wf sign q st hq hst, hfl, Bool.not_true, Bool.false_eq_true, if_false]
-      cases p <;> exact ⟨rfl, rfl⟩
-
-theorem step_benign (sign : SignBytes → σ) (s : State σ) (op : Op) (hb : op.benign = true)
-    (hfl : s.failing = false) : (step sign s op).2.saveFailed = false ∧ (step sign s op).1.failing = false := by
+theorem inv_step {sign : SignBytes → σ} {s : State σ} (h : Inv sign s) (op : Op) :
+    Inv sign (step sign s op).1 := by
   cases op with
-  | sign q => exact signReq_benign sign s _ q hb hfl
-  | crash => exact ⟨rfl, hfl⟩
-  | failsave on =>
-    simp only [Op.benign, Bool.not_eq_true'] at hb
-    subst hb
-    exact ⟨rfl, rfl⟩
+  | sign q =>
+    exact { toCore := core_signReq h .normal q, clean := signReq_normal_clean sign s q h.clean }
+  | crash => exact h.toCore.restart
+  | failsave on => exact { toCore := { h.toCore with }, clean := h.clean }
   | cut c q =>
-    simp only [step, hfl]
-    exact signReq_benign sign (restart s) _ q hb hfl
-
-theorem failStop_of_benign (sign : SignBytes → σ) (ops : List Op) : ∀ (s : State σ),
-    s.failing = false → (∀ op ∈ ops, op.benign = true) → FailStop sign s ops := by
-  induction ops with
-  | nil => intro s _ _; trivial
-  | cons op ops ih =>
-    intro s hfl hb
-    have h1 := step_benign sign s op (hb op (List.mem_cons_self ..)) hfl
-    refine ⟨?_, ih _ h1.2 (fun o ho => hb o (List.mem_cons_of_mem _ ho))⟩
-    intro h; rw [h1.1] at h; cases h
-
-/-! ### Unconditional part: what is released is always a valid signature of what is returned -/
-
-structure InvW (sign : SignBytes → σ) (s : State σ) : Prop where
-  wf_mem : WF sign s.mem
-  wf_disk : WF sign s.disk
-  valid : SigValid sign s.released
-
-theorem sigValid_append {sign : SignBytes → σ} {l : List (Released σ)} (h : SigValid sign l)
-    (e : Released σ) (he : e.sig = sign ⟨e.hrs, e.body, e.ts⟩) : SigValid sign (l ++ [e]) := by
-  intro x hx
-  simp only [List.mem_append, List.mem_singleton] at hx
-  rcases hx with hx | rfl
-  · exact h x hx
-  · exact he
-
-theorem wf_fresh (sign : SignBytes → σ) (sb : SignBytes) :
-    WF sign (⟨sb.hrs, some sb, some (sign sb)⟩ : SignState σ) := by
-  intro sb' e; cases e; exact ⟨rfl, rfl⟩
-
-theorem invW_signReq {sign : SignBytes → σ} {s : State σ} (h : InvW sign s) (p : Persist) (q : Req) :
-    InvW sign (signReq sign p s q).1 := by
-  unfold signReq
-  split
-  · exact h
-  · split
-    · exact h
-    · exact h
-    · rename_i hc
-      have hq := (checkHRS_same hc).1
-      unfold reuse
-      split
-      · rename_i last sg hsb hsg
-        have hw := h.wf_mem last hsb
-        have hsg' : sg = sign last := by
-          have := hw.2; rw [hsg] at this; exact Option.some.inj this
-        split
-        · rename_i heq
-          exact ⟨h.wf_mem, h.wf_disk, sigValid_append h.valid _ (by rw [hsg', ← heq])⟩
-        · split
-          · rename_i hts
-            unfold onlyDifferByTimestamp at hts
-            have e := SignBytes.mk.inj (of_decide_eq_true hts)
-            refine ⟨h.wf_mem, h.wf_disk, sigValid_append h.valid _ ?_⟩
-            show sg = sign ⟨_, _, last.ts⟩
-            rw [hsg']
-            congr 1
-            cases last
-            simp only at e ⊢
-            rw [e.1, e.2.1]
-          · exact h
-      · exact h
-    · unfold freshSign
-      simp only []
-      split
-      · exact ⟨wf_fresh sign _, h.wf_disk, h.valid⟩
-      · split
-        · split
-          · exact ⟨wf_fresh sign _, h.wf_disk, h.valid⟩
-          · exact ⟨wf_fresh sign _, wf_fresh sign _, sigValid_append h.valid _ rfl⟩
-        · exact ⟨wf_fresh sign _, h.wf_disk, h.valid⟩
-        · exact ⟨wf_fresh sign _, wf_fresh sign _, h.valid⟩
-
-theorem invW_step {sign : SignBytes → σ} {s : State σ} (h : InvW sign s) (op : Op) :
-    InvW sign (step sign s op).1 := by
-  cases op with
-  | sign q => exact invW_signReq h _ q
-  | crash => exact ⟨h.wf_disk, h.wf_disk, h.valid⟩
-  | failsave on => exact ⟨h.wf_mem, h.wf_disk, h.valid⟩
-  | cut c q =>
-    simp only [step]
+    simp only [step, stepWith]
     split
     · exact h
-    · have := invW_signReq (s := restart s) ⟨h.wf_disk, h.wf_disk, h.valid⟩
-        (match c with | .old => .killedOld | .new => .killedNew) q
-      exact ⟨this.wf_disk, this.wf_disk, this.valid⟩
+    · exact (core_signReq (sign := sign) h.toCore.restart _ q).restart
 
-theorem invW_run {sign : SignBytes → σ} (ops : List Op) : ∀ {s : State σ}, InvW sign s →
-    InvW sign (run sign s ops) := by
+theorem inv_run {sign : SignBytes → σ} (ops : List Op) : ∀ {s : State σ}, Inv sign s →
+    Inv sign (run sign s ops) := by
   induction ops with
   | nil => intro s h; exact h
-  | cons op ops ih => intro s h; exact ih (invW_step h op)
+  | cons op ops ih =>
+    intro s h
+    exact ih (inv_step h op)
 
-theorem invW_init (sign : SignBytes → σ) : InvW sign (State.init : State σ) :=
-  ⟨(inv_init sign).wf_mem, (inv_init sign).wf_disk, (inv_init sign).valid⟩
+/-! ### A failed save changes nothing -/
+
+theorem freshSign_failed_unchanged (sign : SignBytes → σ) (s : State σ) (sb : SignBytes)
+    (hf : (freshSign sign .normal s sb).2.saveFailed = true) : (freshSign sign .normal s sb).1 = s := by
+  unfold freshSign at hf ⊢
+  simp only [] at hf ⊢
+  split
+  · rfl
+  · rename_i hv
+    simp only [hv] at hf
+    split
+    · rfl
+    · rename_i hfl
+      simp only [hfl] at hf
+      cases hf
+
+theorem signReq_failed_unchanged (sign : SignBytes → σ) (s : State σ) (q : Req)
+    (hf : (signReq sign .normal s q).2.saveFailed = true) : (signReq sign .normal s q).1 = s := by
+  cases hq : q.step with
+  | none => simp only [signReq, signReqWith, hq]
+  | some st =>
+    cases hk : checkHRS s.mem ⟨q.h, q.r, st⟩ with
+    | err e => simp only [signReq, signReqWith, hq, hk]
+    | panicNoSig => simp only [signReq, signReqWith, hq, hk]
+    | same =>
+      simp only [signReq, signReqWith, hq, hk] at hf
+      rw [(reuse_mem_disk s _).2.2.2] at hf
+      cases hf
+    | fresh =>
+      simp only [signReq, signReqWith, hq, hk] at hf ⊢
+      exact freshSign_failed_unchanged sign s _ hf
 
 /-! ### The log is exactly what is returned with a nil error -/
 
 theorem signReq_logged (sign : SignBytes → σ) (p : Persist) (s : State σ) (q : Req) :
     Logged q s.released (signReq sign p s q).1.released (signReq sign p s q).2 := by
   cases hq : q.step with
-  | none => simp only [signReq, hq]; rfl
+  | none => simp only [signReq, signReqWith, hq]; rfl
   | some st =>
     cases hk : checkHRS s.mem ⟨q.h, q.r, st⟩ with
-    | err e => simp only [signReq, hq, hk]; rfl
-    | panicNoSig => simp only [signReq, hq, hk]; rfl
+    | err e => simp only [signReq, signReqWith, hq, hk]; rfl
+    | panicNoSig => simp only [signReq, signReqWith, hq, hk]; rfl
     | same =>
-      simp only [signReq, hq, hk]
+      simp only [signReq, signReqWith, hq, hk]
       unfold reuse
       split
       · split
@@ -512,7 +368,7 @@ theorem signReq_logged (sign : SignBytes → σ) (p : Persist) (s : State σ) (q
           · rfl
       · rfl
     | fresh =>
-      simp only [signReq, hq, hk]
+      simp only [signReq, signReqWith, hq, hk]
       unfold freshSign
       simp only []
       split
@@ -535,7 +391,7 @@ theorem step_logged (sign : SignBytes → σ) (s : State σ) (op : Op) :
   | failsave on => rfl
   | cut c q =>
     intro hf
-    simp only [step, hf]
+    simp only [step, stepWith, hf]
     exact signReq_logged sign _ (restart s) q
 
 end GnoVerif.C34
